@@ -110,9 +110,9 @@ def well_formed(result) -> bool:
     return True
 
 
-def run_request(text, variables=None, operation_name=None, schema=SCHEMA) -> bool:
+def run_request(text, variables=None, operation_name=None, schema=SCHEMA, hide_suggestions=True) -> bool:
     try:
-        r = graphql_sync(schema, text, variable_values=variables, operation_name=operation_name, hide_suggestions=True)
+        r = graphql_sync(schema, text, variable_values=variables, operation_name=operation_name, hide_suggestions=hide_suggestions)
         return well_formed(r)
     except Exception:
         return False
@@ -190,6 +190,74 @@ def variables_any(kind: int, iv: int, fv: float, sv: str, bv: bool, opname: Opti
     return verdict(run_request(VAR_DOC, variables, opname))
 
 
+def suggestions_total(inp: str, *, length: int) -> bool:
+    """The did-you-mean machinery (reached from variable coercion and validation messages) is
+    total on arbitrary text."""
+    from graphql.pyutils import suggestion_list
+
+    assume(len(inp) == length)
+    try:
+        r = suggestion_list(inp, ["ab", "i", "RED", "GREEN"])
+    except Exception:
+        return verdict(False)
+    return verdict(isinstance(r, list))
+
+
+def enum_variable_with_suggestions(sv: str, *, length: int) -> bool:
+    """An arbitrary string as the value of an enum variable, suggestions enabled."""
+    assume(len(sv) == length)
+    return verdict(run_request("query ($c: Color) { color(x: $c) }", {"c": sv}, None, hide_suggestions=False))
+
+
+OPS = ["query", "mutation", "subscription"]
+ROOT_FIELD = {"query": "int", "mutation": "m", "subscription": "s"}
+ROOT_OBJ = {"query": "obj", "mutation": "mobj", "subscription": "sobj"}
+ROOT_TYPE = {"query": "Query", "mutation": "Mutation", "subscription": "Subscription"}
+DIRECTIVES = ["defer", "stream", "skip", "include", "deprecated", "unknown"]
+DARGS = ["if", "label", "initialCount", "reason"]
+DLITS = ['"x"', "1", "true", "null", "$v", "[1]", "{a: 1}", "1.5", "E", "-1"]
+DSITES = ["inline", "field", "spread", "list_field"]
+
+
+def directive_templates(d: int, a: int, lit: int, site: int, with_var: bool, *, op: int) -> bool:
+    """Built-in directives with arbitrary (well- or ill-typed) arguments at every kind of site
+    under every operation kind: errors are returned, never raised."""
+    opk = OPS[op]
+    dname = DIRECTIVES[forked(d, 0, len(DIRECTIVES))]
+    arg = DARGS[forked(a, 0, len(DARGS))]
+    litv = DLITS[forked(lit, 0, len(DLITS))]
+    sitek = DSITES[forked(site, 0, len(DSITES))]
+    dtext = "@" + dname + "(" + arg + ": " + litv + ")"
+    head = opk + (" Q($v: Boolean)" if with_var else "")
+    if sitek == "inline":
+        body = "{ ... " + dtext + " { " + ROOT_FIELD[opk] + " } }"
+    elif sitek == "field":
+        body = "{ " + ROOT_FIELD[opk] + " " + dtext + " }"
+    elif sitek == "spread":
+        body = "{ ...F " + dtext + " } fragment F on " + ROOT_TYPE[opk] + " { " + ROOT_FIELD[opk] + " }"
+    else:
+        body = "{ " + ROOT_OBJ[opk] + " { self { id } } }" if opk != "query" else "{ objs " + dtext + " { id } }"
+    return verdict(run_request(head + " " + body, {"v": True} if with_var else None))
+
+
+def fragment_cycles(op: int, n: int, via_inline: bool, nested: bool) -> bool:
+    """Fragment spread cycles (length 1..3) under every operation kind are reported, not crashed on."""
+    opk = OPS[forked(op, 0, 3)]
+    n = forked(n, 1, 4)
+    t = ROOT_TYPE[opk]
+    f = ROOT_FIELD[opk]
+    spread0 = "... { ...F0 }" if via_inline else "...F0"
+    if nested:
+        t = "Obj"
+        text = opk + " { " + ROOT_OBJ[opk] + " { " + spread0 + " } }"
+        f = "name"
+    else:
+        text = opk + " { " + spread0 + " }"
+    for k in range(n):
+        text += " fragment F" + str(k) + " on " + t + " { " + f + " ...F" + str((k + 1) % n) + " }"
+    return verdict(run_request(text))
+
+
 class WeirdStr(Exception):
     def __str__(self):
         raise RuntimeError("no str")
@@ -238,6 +306,9 @@ BOUNDS = {
         "bracket nesting depth 0..100 x 4 bracket kinds x closed/unclosed",
         "variables: one of 10 variables set to None/int/float/str<=2/bool/[int]/[str,None]/dict/dict, operation name None or any str <= 2",
         "resolver failure: 8 resolver positions x 10 exception instances x raised/returned",
+        "did-you-mean: suggestion_list on every string <= 2 code points; enum variable value any string <= 2 with suggestions on",
+        "directive templates: 3 operation kinds x 6 directives x 4 argument names x 10 literals x 4 sites x with/without variable definition",
+        "fragment cycles: 3 operation kinds x cycle length 1..3 x via inline fragment x nested",
     ],
     "thorough": ["as quick with tails of 1..3, pipeline strings <= 3, substitution on all 5 documents, lexer step up to 4 code points"],
 }
@@ -274,6 +345,12 @@ def obligations(tier):
     for which in range(len(VAR_NAMES)):
         obs.append(dict(fn="variables_any", cell=dict(which=which), budget_s=B))
     obs.append(dict(fn="resolver_raises", cell={}, budget_s=B))
+    for n in range(0, (3 if th else 2) + 1):
+        obs.append(dict(fn="suggestions_total", cell=dict(length=n), budget_s=B))
+        obs.append(dict(fn="enum_variable_with_suggestions", cell=dict(length=n), budget_s=B))
+    for op in range(3):
+        obs.append(dict(fn="directive_templates", cell=dict(op=op), budget_s=B * 2))
+    obs.append(dict(fn="fragment_cycles", cell={}, budget_s=B))
     return obs
 
 
@@ -289,3 +366,7 @@ def corpus():
     yield "nesting", {}, dict(d=3, kind=1, close=True)
     yield "variables_any", dict(which=0), dict(kind=1, iv=3, fv=1.0, sv="x", bv=True, opname="A", present_r=True)
     yield "resolver_raises", {}, dict(field=2, exc=4, as_value=False)
+    yield "suggestions_total", dict(length=2), dict(inp="ba")
+    yield "enum_variable_with_suggestions", dict(length=3), dict(sv="RED")
+    yield "directive_templates", dict(op=0), dict(d=2, a=0, lit=2, site=1, with_var=False)
+    yield "fragment_cycles", {}, dict(op=0, n=2, via_inline=False, nested=False)
